@@ -473,7 +473,7 @@ impl Binder {
             return Err(ErrorKind::NestedWindow.with_spanned(name));
         }
         let partitionby = self.bind_exprs(window.partition_by)?;
-        let orderby = self.bind_orderby(window.order_by)?;
+        let orderby = self.bind_orderby(window.order_by, None)?;
         if window.window_frame.is_some() {
             todo!("support window frame");
         }
